@@ -323,6 +323,11 @@ func checkSizes(t core.TB, rec *core.Recorder, env *gen.Env, pc *paramCase) {
 		fmt.Fprintf(&lint, "type T%d %s\n\nfunc f%d(x T%d) {}\n\n", i, ty, i, i)
 		fmt.Fprintf(&prog, "type T%d %s\n\n", i, ty)
 	}
+	// the same types once more as function-local types that all share ONE name (distinct types
+	// with equal spelling), measured through rangeValCopy
+	for i, ty := range pc.Types {
+		fmt.Fprintf(&lint, "func loc%d() {\n\ttype rec %s\n\tvar xs []rec\n\tfor _, x := range xs {\n\t\t_ = x\n\t}\n}\n\n", i, ty)
+	}
 	prog.WriteString("func main() {\n")
 	for i := range pc.Types {
 		fmt.Fprintf(&prog, "\tfmt.Println(unsafe.Sizeof(T%d{}))\n", i)
@@ -370,6 +375,30 @@ func checkSizes(t core.TB, rec *core.Recorder, env *gen.Env, pc *paramCase) {
 		}
 		if strings.Count(pc.Types[i], ";") >= 1 {
 			rec.Nontrivial("size", pc.Types[i])
+		}
+	}
+	// local same-named types: "each iteration copies N bytes"
+	rv, err := runChecker(env, "rangeValCopy", map[string]string{"rangeValCopy.sizeThreshold": "1"}, p)
+	if err == nil {
+		copies := map[int]string{}
+		reCopies := regexp.MustCompile(`copies (\d+) bytes`)
+		for _, d := range rv[0] {
+			if m := reCopies.FindStringSubmatch(d.Text); m != nil {
+				copies[d.Line] = m[1]
+			}
+		}
+		base := 3 + len(pc.Types)*4
+		for i := range pc.Types {
+			line := base + i*8 + 3 // the for statement of loc<i>
+			if real[i] == "0" {
+				continue
+			}
+			q, ok := copies[line]
+			if !ok {
+				rec.Violation(t, "C14|rangeValCopy.sizeThreshold|size|not-reported", fmt.Sprintf("local type rec = %s has %s bytes but rangeValCopy(sizeThreshold=1) did not report ranging over it (function loc%d)", pc.Types[i], real[i], i), pc)
+			} else if q != real[i] {
+				rec.Violation(t, "C14|rangeValCopy.sizeThreshold|size|wrong", fmt.Sprintf("local type rec = %s in loc%d: message says %s bytes, unsafe.Sizeof says %s", pc.Types[i], i, q, real[i]), pc)
+			}
 		}
 	}
 	rec.Sample("sizes", 2, map[string]any{"types": pc.Types, "sizes": real})
